@@ -96,6 +96,46 @@ class Group:
         return 'p=%d kv=%s' % (self.p, self.kvl)
 
 
+def check_tiny_twins(ctx, agg, groups):
+    """Route agreement on knot vectors that a tolerance-based comparison cannot tell apart: every spec knot vector scaled
+    (exactly, by 2^-34) into a domain of length ~1e-10, all knot vectors of one (degree, length) class evaluated one after
+    the other on ONE common grid.  B-spline values are invariant under the scaling, derivatives scale by 2^(34 k)."""
+    from pyiga import bspline, assemble_tools
+    s = 2.0 ** -34
+    classes = {}
+    for g in groups:
+        classes.setdefault((g.p, len(g.kvl)), []).append(g)
+    for (p, nk), gs in sorted(classes.items()):
+        if len(gs) < 2 or p > 5:
+            continue
+        T = min(g.kvl[-1] - g.kvl[0] for g in gs)
+        G = s * T * np.array([0.0, 0.125, 0.3125, 0.5, 0.75, 0.9375])
+        for g in gs[:12]:
+            kv = bspline.KnotVector(s * (np.array(g.kvl, dtype=float) - g.kvl[0]), p)
+            try:
+                A = np.asarray(assemble_tools.compute_values_derivs(kv, G, p))              # (function, point, order)
+                B = np.stack([M.toarray() for M in bspline.collocation_derivs(kv, G, derivs=p)])   # (order, point, function)
+                C = np.asarray(bspline.active_deriv(kv, G, p))
+                first = np.asarray(bspline.collocation_derivs_info(kv, G, derivs=p)[0])
+            except Exception as ex:
+                agg.add('tiny domain: exception %s' % type(ex).__name__, kv=g.kvl, p=p, error=repr(ex))
+                continue
+            A = np.transpose(A, (2, 1, 0))
+            scale = np.maximum(np.abs(B).max(axis=2, keepdims=True), 1e-300)
+            okAB = A.shape == B.shape and bool(np.all(np.abs(A - B) <= 1e-9 * scale))
+            # active_deriv: (order, window, point) against the window of the collocation rows
+            okC = True
+            for m in range(len(G)):
+                w = B[:, m, first[m]:first[m] + p + 1]
+                if C.shape[0] != p + 1 or np.any(np.abs(C[:, :, m] - w) > 1e-9 * np.maximum(np.abs(w).max(axis=1, keepdims=True), 1e-300)):
+                    okC = False
+            ctx.case(('tiny', p, tuple(g.kvl)), nontrivial=True)
+            if not okAB:
+                agg.add('routes disagree on a tiny domain: compute_values_derivs vs collocation_derivs', kv=g.kvl, p=p, scale=s)
+            if not okC:
+                agg.add('routes disagree on a tiny domain: active_deriv vs collocation_derivs', kv=g.kvl, p=p, scale=s)
+
+
 def check_group(ctx, agg, g):
     from pyiga import bspline, assemble_tools
     p, n, U = g.p, g.n, g.U
@@ -616,6 +656,7 @@ def run(ctx):
             check_group(ctx, agg, g)
     run_high_orders(ctx, agg, groups)
     check_highdeg(ctx, agg, groups)
+    check_tiny_twins(ctx, agg, groups)
     agg.flush()
     ctx.notes['knot_vectors'] = len(groups)
     ctx.exhaustive = True
